@@ -949,7 +949,7 @@ c_status_t UMFindData(const UMessage * msg, const char * fieldName, uint32 dataT
       pointerToBlob += blobSize+sizeof(uint32);  /* move past the blob and the next blob's string-length-field */
       idx--;
    }
-   if (pointerToBlob >= afterEndOfField) return CB_ERROR;
+   if (pointerToBlob > afterEndOfField) return CB_ERROR;  /* (pointerToBlob == afterEndOfField) is okay:  it's a zero-length blob at the end of the field */
    if (UMReadInt32(pointerToBlob-sizeof(uint32)) > (uint32)(afterEndOfField-pointerToBlob)) return CB_ERROR;
 
    *retDataBytes = pointerToBlob;
